@@ -117,7 +117,7 @@ theorem step_flag (L : Lits K) (gEv : K → Array K → Array K) (s : St K) (xol
     output-sampling phase is not run -/
 theorem eventPhase_fired_last_sample (L : Lits K) (gEv : K → Array K → Array K) (s : St K) (xold x : K) (y : Array K)
     (ip : Option (Interp K)) (s' : St K) (h : eventPhase L gEv s xold x y ip = some (s', true)) :
-    ∃ te ye, s'.t.back? = some te ∧ s'.y.back? = some ye := by
+    ∃ te, s'.t.back? = some te := by
   unfold eventPhase at h
   by_cases hn : 0 < s.cfg.size
   · simp only [gt_iff_lt, hn, if_true] at h
@@ -129,8 +129,8 @@ theorem eventPhase_fired_last_sample (L : Lits K) (gEv : K → Array K → Array
         · cases h
         · rename_i lst log _ sorted _
           injection h with h; injection h with h1 h2
-          obtain ⟨te, ye, i, _, ht, hy⟩ := processEvs_fired _ _ _ sorted _ _ (Prod.ext rfl h2)
-          refine ⟨te, ye, ?_, ?_⟩ <;> (rw [← h1]; assumption)
+          obtain ⟨te, ye, i, _, ht⟩ := processEvs_fired _ _ _ sorted _ _ (Prod.ext rfl h2)
+          exact ⟨te, by rw [← h1]; exact ht⟩
   · simp only [gt_iff_lt, hn, if_false] at h
     injection h with h; injection h with _ hb; cases hb
 
